@@ -205,3 +205,162 @@ Example ex_centroid_only :
   = RGt [(7%nat, 0%nat, [Some 1%nat], [Some 1%nat; None]); (8%nat, 1%nat, [None], [None; None]);
          (9%nat, 0%nat, [Some 0%nat], [Some 0%nat; None])].
 Proof. vm_compute. reflexivity. Qed.
+
+(* ================================================================== the per-frame size-matching factor
+   (eff_scale) in a batch whose frames have DIFFERENT sizes (model C12/Scale.v, proofs C12/LemmasScale.v).
+   `assemble qs` = the five lists `_predict_generator` appends in step for the queue items `qs`
+   (`sizematch` = apply_sizematcher on one image, ANY function of that image alone); `samples b` = what the
+   zips of the inference models see; `*_scaled` = the three inference models (+ centroid-only) on an
+   assembled batch, per-sample computations abstract and taking the sample's factor; `*_scaled_one q` =
+   the same for frame q alone (its own image through apply_sizematcher, its own factor). *)
+From SV Require Import C12.Scale C12.LemmasScale.
+
+Section ScaleStatements.
+  Variables image frame size peak inst ginst : Type.
+  Variable sizematch : image -> frame * Q.
+  Variable orig_size : image -> size.
+  Variable detect : frame -> list peak.
+  Variable value : peak -> Q.
+  Variable crop_infer_s : frame -> Q -> peak -> inst.
+  Variable group_s : frame -> Q -> list peak -> list inst.
+  Variable decode_s : frame -> Q -> inst.
+  Variable gmatch_s : frame -> Q -> peak -> option ginst.
+
+  Notation assemble := (assemble image frame size sizematch orig_size).
+  Notation td := (topdown_scaled frame size peak inst detect value crop_infer_s).
+  Notation td1 := (topdown_scaled_one image frame sizematch peak inst detect value crop_infer_s).
+  Notation bu := (bottomup_scaled frame size peak inst detect group_s).
+  Notation bu1 := (bottomup_scaled_one image frame sizematch peak inst detect group_s).
+  Notation si := (single_scaled frame size inst decode_s).
+  Notation si1 := (single_scaled_one image frame sizematch inst decode_s).
+  Notation co := (centroid_only_scaled frame size peak detect value ginst gmatch_s).
+  Notation co1 := (centroid_only_scaled_one image frame sizematch peak detect value ginst gmatch_s).
+  Notation stream := (scaled_stream image frame size sizematch orig_size).
+
+  (* the five lists are aligned: entry b of each comes from queue item b *)
+  Theorem c12_batch_lists_in_step : forall qs : list (qitem image),
+    b_imgs _ _ (assemble qs) = map (fun q => fst (sizematch (q_img _ q))) qs /\
+    b_fidx _ _ (assemble qs) = map (q_fidx _) qs /\
+    b_vidx _ _ (assemble qs) = map (q_vidx _) qs /\
+    b_size _ _ (assemble qs) = map (fun q => orig_size (q_img _ q)) qs /\
+    b_eff _ _ (assemble qs) = map (fun q => snd (sizematch (q_img _ q))) qs.
+  Proof. exact (assemble_lists image frame size sizematch orig_size). Qed.
+
+  (* the dictionary handed to the models: entry b = (frame_idx, video_idx, eff_scale) of frame b itself,
+     for every batch size *)
+  Theorem c12_eff_scale_is_the_frames_own : forall n (qs : list (qitem image)), (0 < n)%nat ->
+    stream (eff_entries frame size) n qs
+    = map (fun q => (q_fidx _ q, q_vidx _ q, snd (sizematch (q_img _ q)))) qs.
+  Proof. exact (eff_entries_any_batch_size image frame size sizematch orig_size). Qed.
+
+  (* (a) the batch result is the list of per-frame results, every frame with its own factor *)
+  Theorem c12_topdown_scaled_is_per_frame : forall mi qs, td mi (assemble qs) = flat_map (td1 mi) qs.
+  Proof. exact (topdown_scaled_is_per_frame image frame size sizematch orig_size peak inst detect value crop_infer_s). Qed.
+
+  Theorem c12_bottomup_scaled_is_per_frame : forall qs, bu (assemble qs) = map bu1 qs.
+  Proof. exact (bottomup_scaled_is_per_frame image frame size sizematch orig_size peak inst detect group_s). Qed.
+
+  Theorem c12_single_scaled_is_per_frame : forall qs, si (assemble qs) = map si1 qs.
+  Proof. exact (single_scaled_is_per_frame image frame size sizematch orig_size inst decode_s). Qed.
+
+  Theorem c12_centroid_only_scaled_is_per_frame : forall mi M qs,
+    map (strip_padding peak ginst) (co mi M (assemble qs)) = map (co1 mi M) qs.
+  Proof. exact (centroid_only_scaled_is_per_frame image frame size sizematch orig_size peak detect value ginst gmatch_s). Qed.
+
+  (* batch-mates *)
+  Theorem c12_topdown_scaled_independent_of_batch_mates : forall mi xs1 x xs2,
+    td mi (assemble (xs1 ++ [x] ++ xs2)) = td mi (assemble xs1) ++ td mi (assemble [x]) ++ td mi (assemble xs2).
+  Proof. exact (topdown_scaled_mates image frame size sizematch orig_size peak inst detect value crop_infer_s). Qed.
+
+  Theorem c12_bottomup_scaled_independent_of_batch_mates : forall xs1 x xs2,
+    bu (assemble (xs1 ++ [x] ++ xs2)) = bu (assemble xs1) ++ bu (assemble [x]) ++ bu (assemble xs2).
+  Proof. exact (bottomup_scaled_mates image frame size sizematch orig_size peak inst detect group_s). Qed.
+
+  Theorem c12_single_scaled_independent_of_batch_mates : forall xs1 x xs2,
+    si (assemble (xs1 ++ [x] ++ xs2)) = si (assemble xs1) ++ si (assemble [x]) ++ si (assemble xs2).
+  Proof. exact (single_scaled_mates image frame size sizematch orig_size inst decode_s). Qed.
+
+  (* batch size *)
+  Theorem c12_topdown_scaled_independent_of_batch_size : forall mi n qs, (0 < n)%nat ->
+    stream (td mi) n qs = flat_map (td1 mi) qs.
+  Proof. exact (topdown_scaled_any_batch_size image frame size sizematch orig_size peak inst detect value crop_infer_s). Qed.
+
+  Theorem c12_bottomup_scaled_independent_of_batch_size : forall n qs, (0 < n)%nat ->
+    stream bu n qs = map bu1 qs.
+  Proof. exact (bottomup_scaled_any_batch_size image frame size sizematch orig_size peak inst detect group_s). Qed.
+
+  Theorem c12_single_scaled_independent_of_batch_size : forall n qs, (0 < n)%nat ->
+    stream si n qs = map si1 qs.
+  Proof. exact (single_scaled_any_batch_size image frame size sizematch orig_size inst decode_s). Qed.
+
+  (* order *)
+  Theorem c12_topdown_scaled_permutation : forall mi qs qs', Permutation qs qs' ->
+    Permutation (td mi (assemble qs)) (td mi (assemble qs')).
+  Proof. exact (topdown_scaled_perm image frame size sizematch orig_size peak inst detect value crop_infer_s). Qed.
+
+  Theorem c12_bottomup_scaled_permutation : forall qs qs', Permutation qs qs' ->
+    Permutation (bu (assemble qs)) (bu (assemble qs')).
+  Proof. exact (bottomup_scaled_perm image frame size sizematch orig_size peak inst detect group_s). Qed.
+
+  Theorem c12_single_scaled_permutation : forall qs qs', Permutation qs qs' ->
+    Permutation (si (assemble qs)) (si (assemble qs')).
+  Proof. exact (single_scaled_perm image frame size sizematch orig_size inst decode_s). Qed.
+
+  (* every record carries the indices of one queued frame and was computed from THAT frame's size-matched
+     image with THAT frame's factor *)
+  Theorem c12_topdown_scaled_indices : forall mi qs f v insts,
+    In (f, v, insts) (td mi (assemble qs)) ->
+    exists q, In q qs /\ f = q_fidx _ q /\ v = q_vidx _ q /\
+      insts = map (crop_infer_s (fst (sizematch (q_img _ q))) (snd (sizematch (q_img _ q))))
+                  (kept peak value mi (detect (fst (sizematch (q_img _ q))))) /\
+      kept peak value mi (detect (fst (sizematch (q_img _ q)))) <> [].
+  Proof. exact (topdown_scaled_indices image frame size sizematch orig_size peak inst detect value crop_infer_s). Qed.
+
+  Theorem c12_single_scaled_indices : forall qs b q, nth_error qs b = Some q ->
+    nth_error (si (assemble qs)) b
+    = Some (q_fidx _ q, q_vidx _ q, decode_s (fst (sizematch (q_img _ q))) (snd (sizematch (q_img _ q)))).
+  Proof. exact (single_scaled_indices image frame size sizematch orig_size inst decode_s). Qed.
+
+  Theorem c12_bottomup_scaled_indices : forall qs b q, nth_error qs b = Some q ->
+    nth_error (bu (assemble qs)) b
+    = Some (q_fidx _ q, q_vidx _ q,
+            group_s (fst (sizematch (q_img _ q))) (snd (sizematch (q_img _ q))) (detect (fst (sizematch (q_img _ q))))).
+  Proof. exact (bottomup_scaled_indices image frame size sizematch orig_size peak inst detect group_s). Qed.
+End ScaleStatements.
+
+(* "one factor for the whole batch" (the factor of the last frame read) makes a frame's factor depend
+   on its batch-mates: frame 7 gets 2 alone and 3 next to frame 8; the lists built in step give 2 and 3 *)
+Theorem c12_one_factor_per_batch_depends_on_batch_mates :
+  let ents := fun qs => eff_entries nat nat (assemble_last_eff nat nat nat toy_sizematch (fun n => n) qs) in
+  ents [toy_q 2 7] = [(7%nat, 0%nat, inject_Z 2)] /\
+  ents [toy_q 2 7; toy_q 3 8] = [(7%nat, 0%nat, inject_Z 3); (8%nat, 0%nat, inject_Z 3)] /\
+  eff_entries nat nat (assemble nat nat nat toy_sizematch (fun n => n) [toy_q 2 7; toy_q 3 8])
+  = [(7%nat, 0%nat, inject_Z 2); (8%nat, 0%nat, inject_Z 3)].
+Proof. exact last_eff_depends_on_batch_mates. Qed.
+
+Print Assumptions c12_batch_lists_in_step.
+Print Assumptions c12_eff_scale_is_the_frames_own.
+Print Assumptions c12_topdown_scaled_is_per_frame.
+Print Assumptions c12_bottomup_scaled_is_per_frame.
+Print Assumptions c12_single_scaled_is_per_frame.
+Print Assumptions c12_centroid_only_scaled_is_per_frame.
+Print Assumptions c12_topdown_scaled_independent_of_batch_mates.
+Print Assumptions c12_bottomup_scaled_independent_of_batch_mates.
+Print Assumptions c12_single_scaled_independent_of_batch_mates.
+Print Assumptions c12_topdown_scaled_independent_of_batch_size.
+Print Assumptions c12_bottomup_scaled_independent_of_batch_size.
+Print Assumptions c12_single_scaled_independent_of_batch_size.
+Print Assumptions c12_topdown_scaled_permutation.
+Print Assumptions c12_bottomup_scaled_permutation.
+Print Assumptions c12_single_scaled_permutation.
+Print Assumptions c12_topdown_scaled_indices.
+Print Assumptions c12_single_scaled_indices.
+Print Assumptions c12_bottomup_scaled_indices.
+Print Assumptions c12_one_factor_per_batch_depends_on_batch_mates.
+
+(* non-vacuity: a 96x96 and a 144x160 frame size-matched to 144x160 in one batch of the executable entry:
+   factors 3/2 and 1 next to the frames' own indices and original sizes *)
+Example ex_mixed_sizes :
+  srun (CEff (Some 144%Z) (Some 160%Z) 2%nat [(0%nat, 0%nat, (96%Z, 96%Z)); (0%nat, 1%nat, (144%Z, 160%Z))])
+  = [[(0%nat, 0%nat, 144 # 96, (96%Z, 96%Z)); (0%nat, 1%nat, 1, (144%Z, 160%Z))]].
+Proof. vm_compute. reflexivity. Qed.
